@@ -66,7 +66,8 @@ class C05(Property):
     REQUIRED_PROBES = ["probe.fault-inside-nested-block",
                        "probe.pushback-depth>=3",
                        "probe.reject", "probe.accept-damaged",
-                       "probe.abstain", "probe.tolerant-empty-value"]
+                       "probe.abstain", "probe.tolerant-empty-value",
+                       "probe.very-long-token"]
     FAULT_KINDS = ["drop", "dup", "swap", "replace", "eof", "partial"]
 
     # ---- executing one explicit case
@@ -253,6 +254,28 @@ class C05(Property):
             cplan = [f for f in plan if f["kind"] != "partial"]
             if cplan and len(cplan) == len(plan):
                 do(chan_case(cplan), first)
+        # (c) a very long token (a long description, an embedded table):
+        # well-formed, every later statement must still be there; torn, the
+        # load must raise.  Sizes straddle 2**15 and 2**16.
+        if rng.random() < 0.02:
+            tops = [i for i, t in enumerate(toks[:max(live, 1)])
+                    if t.depth == 0 and t.role in ("name", "begin")] or [0]
+            at = rng.choice(tops)
+            size = rng.choice([2 ** 15 - 1, 2 ** 15 + 1, 40000, 2 ** 16 + 7])
+            body = "x" * size
+            long_stmt = [gen.Tok(gen.NAME, "LONGTEXT", "name", 0, -7,
+                                 ("str", "LONGTEXT")),
+                         gen.Tok(gen.EQ, "=", "eq", 0, -7),
+                         gen.Tok(gen.STR, '"%s"' % body, "value", 0, -7,
+                                 ("str", body))]
+            ltoks = [t.clone() for t in toks[:at]] + long_stmt + \
+                [t.clone() for t in toks[at:]]
+            out.inc("probe.very-long-token")
+            do(text_case(ltoks))
+            torn = rng.choice(['"' + body, "/* " + body, "'" + body])
+            out.inc("fault.text-partial")
+            do(text_case(e1.apply_plan(ltoks, [
+                {"kind": "partial", "at": at + 2, "text": torn}])), at + 2)
         if out.violations:
             out.inc("violations", len(out.violations))
         if index % 200 == 0:
